@@ -240,6 +240,12 @@ std::vector<Op> entity_alphabet(int level) {
     add(2, "f1.writeCell(0,c1)", [=](File &f) { DataFrame d = F(f, b1, "f1"); need(d.rows() > 0); d.writeCell(0, 1, Variant(int64_t(99))); });
     add(2, "f1.addSource(s1)", [=](File &f) { DataFrame d = F(f, b1, "f1"); Source s = SRC(f, b1, {"s1"}); need(!d.hasSource(s)); d.addSource(s); });
     add(2, "f1.metadata(x1)", [=](File &f) { F(f, b1, "f1").metadata(SEC(f, {"x1"})); });
+
+    // ---------------- names that look like ids (unguarded creates: the second one must be rejected) ----------------
+    const std::string uu = "0f1e2d3c-4b5a-6978-8796-a5b4c3d2e1f0";
+    add(2, "b1.createTag(<uuid-shaped name>)", [=](File &f) { B(f, b1).createTag(uu, "t", {1.0}); });
+    add(2, "b1.createGroup(<uuid-shaped name>)", [=](File &f) { B(f, b1).createGroup(uu, "t"); });
+    add(2, "b1.createDataArray(<uuid-shaped name>)", [=](File &f) { B(f, b1).createDataArray(uu, "t", DataType::Double, NDSize({2})); });
     return v;
 }
 
